@@ -223,6 +223,12 @@ def gen_pair(rng, box, style):
     """two dyadic points in the box; returns (x1, x2, exact) where exact says |x1-x2| is exact in binary64"""
     d = len(box)
     x1 = [dy(rng, lo, hi, 0.125) for lo, hi in box]
+    if style == "intpt":
+        # end points a caller wrote as integers (the arrays are then integer-typed, see interp_call)
+        x1 = [float(rng.randint(int(np.ceil(lo)), int(np.floor(hi)))) for lo, hi in box]
+        x2 = [float(rng.randint(int(np.ceil(lo)), int(np.floor(hi)))) if rng.random() < 0.5 else dy(rng, lo, hi, 0.125)
+              for lo, hi in box]
+        return x1, x2, False
     if style == "same":
         return x1, list(x1), True
     if style == "axis":
@@ -367,7 +373,12 @@ def interp_call(ctx, b, neb, box, x1, x2, attempts, exact, label, hist):
     eff = neb.original_image_density * 1.5 * attempts if attempts > 0 else neb.image_density
     p, dist, exact, near = count_margin(eff, x1, x2)
     coords = new_coords(box, x1)
-    band = neb.initial_interpolation(coords, np.array(x2, dtype=float), attempts, None)
+    x2a = np.array(x2, dtype=float)
+    if all(float(v).is_integer() for v in x1) and hash((tuple(x1), tuple(x2), attempts)) % 2 == 0:
+        coords.position = np.array([int(v) for v in x1])            # integer-typed array, as np.array([-1, 0]) gives
+        if all(float(v).is_integer() for v in x2):
+            x2a = np.array([int(v) for v in x2])
+    band = neb.initial_interpolation(coords, x2a, attempts, None)
     st = impl_state(neb)
     n = int(neb.n_images)
     bounds = list(neb.band_bounds)
@@ -424,7 +435,7 @@ def corr_interp(ctx, rng, b):
         for ci in range(rng.randrange(3, 7)):
             if ci and rng.random() < 0.4:
                 box = gen_box(rng, d)             # same object, same dimension, different box
-            style = rng.choice(["axis", "axis", "pyth", "free", "same"])
+            style = rng.choice(["axis", "axis", "pyth", "free", "same", "intpt"])
             x1, x2, exact = gen_pair(rng, box, style)
             attempts = rng.choice([0, 0, 1, 2, 3, 4])
             hist.append(interp_call(ctx, b, neb, box, x1, x2, attempts, exact, "interp", hist))
@@ -872,8 +883,14 @@ def pred_interp(k, density, mx, box, calls) -> list[tuple[str, str]]:
         x1, x2, attempts = call[0], call[1], call[2]
         box = call[3] if len(call) > 3 else box0        # the same object searched in a different box
         coords = new_coords(box, x1)
+        if all(float(v).is_integer() for v in x1):
+            coords.position = np.array([int(v) for v in x1])        # an end point written as integers
         band = neb.initial_interpolation(coords, np.array(x2, dtype=float), attempts, None)
         n = neb.n_images
+        line_pts = np.array(x1, dtype=float) + np.outer(np.arange(n), (np.array(x2, dtype=float) - np.array(x1, dtype=float)) / max(n - 1, 1))
+        if len(band) == n and float(np.max(np.abs(np.asarray(band, dtype=float) - line_pts))) > 1e-9 * (1.0 + float(np.max(np.abs(line_pts)))):
+            out.append(("straight-line:linear_interpolation", "the interpolated images are not evenly spaced on the "
+                        "straight line between the two minima"))
         if not (10 <= n <= mx) or len(band) != n:
             out.append(("image-count:initial_interpolation", f"{n} images (rows {len(band)}) with max_images={mx}, attempts={attempts}"))
         if band[0].tobytes() != np.array(x1, dtype=float).tobytes():
@@ -999,7 +1016,7 @@ def predicates(ctx: Ctx) -> None:
         for _ in range(rng.randrange(2, 6)):
             if calls and rng.random() < 0.35:                    # same object, other box of the same dimension
                 box = gen_box(rng, d)
-            x1, x2, _e = gen_pair(rng, box, rng.choice(["axis", "pyth", "free", "same"]))
+            x1, x2, _e = gen_pair(rng, box, rng.choice(["axis", "pyth", "free", "same", "intpt"]))
             if rng.random() < 0.2:                               # ends on the faces of the box
                 x1 = [rng.choice(bb) for bb in box]
                 x2 = [rng.choice(bb) for bb in box]
